@@ -563,3 +563,24 @@ package kv
 //@ func deriveKey
 //@   modifies nothing
 //@   ensures whole-input: bytes(result) == argonKey(b64(bytes(context) + bytes(master)), blake(bytes(context) + bytes(master), 16), 32) && len(result) == 32
+
+// Diff (property C17): the callback sees, per differing key, the VISIBLE value
+// on each side — a tombstone or a missing entry is "absent" (nil), a live entry
+// its payload — and is not called when the visible values are equal.
+//@ spec visibleOf(v interface{}) interface{} = ite(typeis(v, crdtpub.Value) && v.(crdtpub.Value).TombstoneSinceEpochNanos == 0, v.(crdtpub.Value).Value, nil)
+//@ func innerValue
+//@   modifies nothing
+//@   ensures visible-value: result == visibleOf(v)
+//@ func (DB).Diff$1#f
+//@   trusted
+//@   modifies all
+//@ func (DB).Diff$1
+//@   requires f != nil && *f != nil
+//@   modifies all
+//@   at call:funcvalue assert visible-values-in-order: arg0 == key && arg1 == visibleOf(addedValue) && arg2 == visibleOf(removedValue)
+//@   at call:funcvalue assert only-visible-differences-reported: !deepEqual(visibleOf(addedValue), visibleOf(removedValue))
+//@   ensures equal-visible-values-skipped: imp(deepEqual(visibleOf(addedValue), visibleOf(removedValue)), result0 && result1 == nil)
+//@ func (DB).Diff
+//@   requires s.crdt.Mast != nil && f != nil
+//@   modifies all
+//@   at call:mast.(*Mast).DiffIter assert this-version-against-from: arg0 == s.crdt.Mast && arg2 == ite(from != nil, from.crdt.Mast, nil)
